@@ -55,3 +55,14 @@ Proof. exact (@slice_vec_res_ok). Qed.
 Theorem C17_collapse_inside : forall R veq (SP : RSpec R) (H : RegionOK R) (V : Res R), ResOK R V ->
   ResOK (collapse R veq) (collapse_res veq V).
 Proof. exact (@collapse_res_ok). Qed.
+
+(** Without pre-sizing: for ANY growth policy that satisfies the request and at least doubles the
+    capacity (std's documented amortised growth, two hypotheses on an abstract [grow]), a backing
+    vector asked to hold any sequence of positive lengths reallocates at most
+    log2(final capacity) + 1 times -- O(log n) per internal storage, never one per item.  The check
+    measures exactly this bound on the real allocator (sum over storages of log2(capacity) + 2). *)
+Theorem C17_log_reallocs : forall (grow : N -> N -> N),
+  (forall cap need, need <= grow cap need) -> (forall cap need, 2 * cap <= grow cap need) ->
+  forall needs cap, Forall (fun n => 1 <= n) needs ->
+  (snd (reallocs grow cap needs) <= N.to_nat (N.log2 (fst (reallocs grow cap needs))) + 1)%nat.
+Proof. exact (@log_reallocs). Qed.
